@@ -214,6 +214,7 @@ package storage
 //@   opt nomonitor = 1
 //@   safety index nil
 //@   ensures notfound: !old(fileHas(q(height))) ==> result1 != nil
+//@   ensures foreign_error: Cause(result1) != ErrInvalidHeight
 //@   ensures content: result1 == nil ==> old(fileHas(q(height))) && !blobtail(fileBlob(q(height))) && len(result0) == fileN(q(height))
 //@        && forall(k, 0, len(result0), result0[k] == blobhdr(fileBlob(q(height)), k)) && fresharr(result0)
 //@   ensures frame: stsame() && same(repo.height, repo.lastHeaders, repo.heights) && oldrows(repo.lastHeaders)
@@ -241,6 +242,7 @@ package storage
 //@   ensures beyond: height > repo.height || height < 0 ==> result1 == ErrInvalidHeight && result0 == nil
 //@   ensures value: 0 <= height && height <= repo.height && result1 == nil ==> result0 != nil && *result0 == Hdr(repo, height)
 //@   ensures cached: 0 <= height && height <= repo.height && q(height) == q(repo.height) ==> result1 == nil
+//@   ensures invalid_only_beyond: Cause(result1) == ErrInvalidHeight ==> height > repo.height || height < 0
 //@   ensures frame: stsame() && memSame(repo)
 
 //@ func (*BlockRepository).getTime
@@ -288,6 +290,7 @@ package storage
 //@   ensures beyond: height > repo.height || height < -1 ==> result1 == ErrInvalidHeight && result0 == nil
 //@   ensures value: 0 <= height && height <= repo.height && result1 == nil ==> result0 != nil && *result0 == Hdr(repo, height)
 //@   ensures cached: 0 <= height && height <= repo.height && q(height) == q(repo.height) ==> result1 == nil
+//@   ensures invalid_only_beyond: Cause(result1) == ErrInvalidHeight ==> height > repo.height || height < -1
 //@   ensures frame: stsame() && memSame(repo)
 
 //@ func (*BlockRepository).Time
